@@ -187,7 +187,29 @@ def r2(ctx, F, hub):
     # tabled exception: create_dir_all(dst.parent()) - content-free and idempotent (classified 'parent', not 'live')
 
 
+def current_is_computed(ctx, F, hub):
+    """What the CAS compares is the hash of the bytes on disk NOW: the helper that produces `current` computes it from the
+    file on every call.  A value taken out of a collection (a per-process memo validated by size and whole-second mtime)
+    describes the file as it was when noted: another server's same-length commit within that second is invisible to it, a
+    stale Put then commits over acknowledged content."""
+    ch = hub.current_hash
+    b = F.body(ch) if ch else None
+    if b is None:
+        return
+    fl = flow_of(b)
+    os_ = [o for o in fl.origins(0) if o.kind != 'comb']
+    remembered = [o for o in os_ if o.kind == 'call' and re.search(r'(BTreeMap|HashMap|BTreeSet|HashSet|Vec|VecDeque|LruCache)\b.*::(get|get_mut|get_key_value|remove|entry|first|last|pop\w*)$', str(o.key))]
+    computed = [o for o in os_ if o.kind == 'call' and (str(o.key) in ('meta::fingerprint_path', 'blake3::Hasher::finalize', 'blake3::hash') or F.body(str(o.key)) is not None)]
+    if remembered:
+        ctx.bad('C03.R3', 'current_hash:remembered-value', '%s can answer with a value it takes out of a collection (%s) instead of hashing the file: what the CAS compares is then what '
+                'this process noted earlier, not what another server has committed since - a stale Put commits over acknowledged content, a stale Delete removes it' % (
+                    ch.split('::')[-1], str(remembered[0].key).split('::')[-1]), term_loc(b, remembered[0].bb))
+    elif computed:
+        ctx.ok('C03.R3', 'current_hash:computed-from-the-file', 'every value it returns is computed from the file', loc(b, b.lo))
+
+
 def r3_r5(ctx, F, hub):
+    ctx.attempt(current_is_computed, ctx, F, hub)
     regions = sorted(hub.held.keys())
     if len(regions) < 2:
         ctx.missing('C03.R3', 'two held regions (put, delete); found %s' % regions)
